@@ -3,6 +3,8 @@
 // source replaced at link time by scripted queues: BoxMuller::evaluate, drand48, random are defined
 // here, so the library consumes exactly the deviates an operation line supplies.
 // All values are IEEE doubles written as 16-hex-digit bit patterns.
+#include <thread>
+#include <cstdlib>
 #include <cstring>
 #include <cstdio>
 #include <cmath>
@@ -721,16 +723,19 @@ int main ()
     for (unsigned q=0;q<P;q++) { long double ca = run ((int) q, -1, 0) - base, cb = run (-1, (int) q, 0) - base; saa += ca*ca; sbb += cb*cb; sab += ca*cb; }
     long double exact = va*saa + vb*sbb + 2*k*sab; O.put ((double) fabsl (exact - predicted)); O.put ((double) exact); O.put (predicted); };
 
-  std::string line;
+  std::string line; const bool threaded = getenv ("EPSIC_HARNESS_THREAD") != 0;
   while (std::getline (std::cin, line)) {
     A_ a; { std::istringstream is (line); std::string t; while (is >> t) a.tok.push_back (t); }
     if (a.tok.empty()) { std::cout << "err empty\n"; continue; }
     auto it = ops.find (a.next());
     if (it == ops.end()) { std::cout << "err unknown-op\n"; continue; }
-    O_ o; reset_sources (); Pauli::basis().set_basis (Signal::Linear);
-    try { it->second (a, o); std::cout << "ok" << o.os.str() << "\n"; }
-    catch (Exhausted& e) { std::cout << "err " << e.what() << "\n"; }
-    catch (std::exception& e) { std::string w = e.what(); std::cout << "err " << (w.compare(0,9,"protocol:") == 0 ? w : "throw:" + w) << "\n"; }
+    // thread mode (the runner's thread pass): the line is executed on a thread of its own, started and joined here
+    auto body = [&]() -> std::string { O_ o; reset_sources (); Pauli::basis().set_basis (Signal::Linear);
+      try { it->second (a, o); return "ok" + o.os.str(); }
+      catch (Exhausted& e) { return std::string ("err ") + e.what(); }
+      catch (std::exception& e) { std::string w = e.what(); return "err " + (w.compare(0,9,"protocol:") == 0 ? w : "throw:" + w); } };
+    if (threaded) { std::string out; std::thread th ([&]() { out = body (); }); th.join (); std::cout << out << "\n"; }
+    else std::cout << body () << "\n";
   }
   return 0;
 }
